@@ -4,6 +4,7 @@
 # whole `lightning` lib suite (minus the demo) still passes with the patch. Writes <dir>/confirm.log.
 set -u
 ID=$1; DIR=$2; FILTERS=$3
+PKGARGS=${PKGARGS:-"-p lightning --lib"}   # e.g. PKGARGS="-p lightning-invoice" for a demo in another crate
 W=/tmp/confirm
 [ -d $W ] || git -C /repo worktree add -q $W HEAD
 cd $W && git checkout -q -- . && git clean -fdq -e target
@@ -11,12 +12,12 @@ git checkout -q --detach $(git -C /repo rev-parse HEAD)
 LOG=$DIR/confirm.log; : > $LOG
 git apply $DIR/demo.diff || { echo "demo.diff does not apply" >> $LOG; exit 1; }
 export CARGO_BUILD_JOBS=8
-run_demo() { cargo test --offline -p lightning --lib -- --test-threads 6 $FILTERS 2>&1 | grep -E "^test result|^test .* (ok|FAILED)$" ; }
+run_demo() { cargo test --offline $PKGARGS -- --test-threads 6 $FILTERS 2>&1 | grep -E "^test result|^test .* (ok|FAILED)$" ; }
 echo "== pristine + demo" >> $LOG; run_demo >> $LOG
 git apply $DIR/patch.diff || { echo "patch.diff does not apply" >> $LOG; exit 1; }
 echo "== patched + demo" >> $LOG; run_demo >> $LOG
-echo "== patched, whole lightning lib suite except the demo" >> $LOG
+echo "== patched, whole suite ($PKGARGS) except the demo" >> $LOG
 SKIPS=""; for f in $FILTERS; do SKIPS="$SKIPS --skip $f"; done
-cargo test --offline -p lightning --lib -- --test-threads 8 $SKIPS 2>&1 | grep -E "^test result|FAILED" >> $LOG
+cargo test --offline $PKGARGS --no-fail-fast -- --test-threads 8 $SKIPS 2>&1 | grep -E "^test result|FAILED" >> $LOG
 git checkout -q -- . && git clean -fdq -e target
 echo "== done $ID" >> $LOG
